@@ -690,7 +690,11 @@ func coqAddrList(l []string) string {
 	return hx.CoqList(s)
 }
 
-func (o obsRec) coq() string {
+func (o obsRec) coqThreads() string {
+	return fmt.Sprintf("%s %d %d", hx.CoqList(o.status), o.winIn, o.winOut)
+}
+
+func (o obsRec) coqCtrl() string {
 	var peers []string
 	for _, p := range o.snap.Peers {
 		peers = append(peers, fmt.Sprintf("(%d, (%d, %s))", p.Id, p.ConnectId, coqAddr(p.Addr)))
@@ -699,10 +703,24 @@ func (o obsRec) coq() string {
 	if o.snap.OwnAddr != "" {
 		own = "(Some " + coqAddr(o.snap.OwnAddr) + ")"
 	}
-	return fmt.Sprintf("(Obs %s %s %s %s %s %s %d %s %s %s %s %d %d)",
+	return fmt.Sprintf("%s %s %s %s %s %s %d %s|%d %d",
 		coqAddrList(o.snap.Inbounds), coqAddrList(o.snap.Outbounds), coqAddrList(o.snap.InboundListen),
 		coqAddrList(o.snap.Connecting), hx.CoqList(peers), own, o.snap.NextConnectId, hx.CoqBool(o.fatal),
-		hx.CoqList(o.status), hx.CoqNat(o.winIn), hx.CoqNat(o.winOut), o.liveIn, o.liveOut)
+		o.liveIn, o.liveOut)
+}
+
+// coq renders the observation relative to the previous one (prevCtrl/prevThr are updated).
+func (o obsRec) coq(prevCtrl, prevThr *string) string {
+	ct, th := o.coqCtrl(), o.coqThreads()
+	defer func() { *prevCtrl, *prevThr = ct, th }()
+	switch {
+	case ct == *prevCtrl && th == *prevThr:
+		return "Same"
+	case ct == *prevCtrl:
+		return "(ObsT " + th + ")"
+	}
+	parts := strings.SplitN(ct, "|", 2)
+	return "(Obs " + parts[0] + " " + th + " " + parts[1] + ")"
 }
 
 func coqDir(d string) string {
@@ -718,11 +736,11 @@ func (e Event) coq() string {
 		return fmt.Sprintf("(SE (Spawn %s (%d, %d) %d %d %s %s %s))", coqDir(e.Dir), e.IP, e.Port, e.Pid, e.LPort,
 			hx.CoqBool(e.Reserved), hx.CoqBool(e.DialOK), hx.CoqBool(e.HsOK))
 	case "run":
-		return fmt.Sprintf("(SE (Run %s))", hx.CoqNat(e.Idx))
+		return fmt.Sprintf("(SE (Run %d))", e.Idx)
 	case "adv":
-		return fmt.Sprintf("(SAdv %s)", hx.CoqNat(e.Idx))
+		return fmt.Sprintf("(SAdv %d)", e.Idx)
 	case "close":
-		return fmt.Sprintf("(SE (Close %s))", hx.CoqNat(e.Idx))
+		return fmt.Sprintf("(SE (Close %d))", e.Idx)
 	}
 	panic("c36: bad event kind " + e.Kind)
 }
@@ -816,7 +834,7 @@ func runSched(c *hx.Ctx, prog *Prog, s Sched, next nextFn) {
 	maxWinIn, maxWinOut := 0, 0
 	failed := false
 	saves := 0
-	prevObs := ""
+	prevCtrl, prevThr := "", ""
 	for i := 0; ; i++ {
 		e, ok := next(r, i)
 		if !ok {
@@ -853,13 +871,7 @@ func runSched(c *hx.Ctx, prog *Prog, s Sched, next nextFn) {
 			maxWinOut = o.winOut
 		}
 		saves = int(o.snap.NextConnectId)
-		ot := o.coq()
-		if ot == prevObs {
-			steps = append(steps, "("+e.coq()+", Same)")
-		} else {
-			steps = append(steps, "("+e.coq()+", "+ot+")")
-			prevObs = ot
-		}
+		steps = append(steps, "("+e.coq()+", "+o.coq(&prevCtrl, &prevThr)+")")
 		if !failed {
 			var ips []int
 			for ip := range ipset {
@@ -939,12 +951,30 @@ func witnesses() []Sched {
 	}
 }
 
+func genCfgChurn(c *hx.Ctx) Cfg {
+	per := []uint{1, 2, 2, 3, 8}
+	return Cfg{MaxIn: uint(1 + c.Rng.Intn(3)), MaxOut: uint(1 + c.Rng.Intn(3)), MaxPerIP: per[c.Rng.Intn(len(per))], SelfID: 99}
+}
+
 func genCfg(c *hx.Ctx) Cfg {
 	per := []uint{0, 1, 1, 2, 2, 8}
 	return Cfg{MaxIn: uint(c.Rng.Intn(4)), MaxOut: uint(c.Rng.Intn(4)), MaxPerIP: per[c.Rng.Intn(len(per))], SelfID: 99}
 }
 
-func genSpawn(c *hx.Ctx) Event {
+func genSpawn(c *hx.Ctx, churn bool, outOf4 int) Event {
+	if churn {
+		// few hosts, many distinct ports, no environment failures: fills the limits quickly
+		e := Event{Kind: "spawn", IP: 1 + c.Rng.Intn(2), Pid: uint64(11 + c.Rng.Intn(8)), LPort: uint16(20338 + c.Rng.Intn(3)),
+			Reserved: true, DialOK: true, HsOK: true}
+		if c.Rng.Intn(4) >= outOf4 {
+			e.Dir = "in"
+			e.Port = 5001 + c.Rng.Intn(12)
+		} else {
+			e.Dir = "out"
+			e.Port = 20338 + c.Rng.Intn(2)
+		}
+		return e
+	}
 	e := Event{Kind: "spawn", IP: 1 + c.Rng.Intn(3), Pid: uint64(11 + c.Rng.Intn(4)), LPort: uint16(20338 + c.Rng.Intn(2)),
 		Reserved: c.Rng.Intn(12) != 0, DialOK: c.Rng.Intn(10) != 0, HsOK: c.Rng.Intn(10) != 0}
 	if c.Rng.Intn(25) == 0 {
@@ -974,12 +1004,20 @@ func pendingThreads(r runner) []int {
 // (never in the finding class); otherwise a random interleaving of the attempts in flight, with
 // new attempts and closes mixed in. Level B attempts that have failed/returned still get an
 // occasional extra step (their deferred call; or a no-op, which must be a no-op in the model too).
-func genNext(c *hx.Ctx, level string, sequential bool) nextFn {
+func genNext(c *hx.Ctx, level string, mode int) nextFn {
 	stepKind := "run"
 	if level == "A" {
 		stepKind = "adv"
 	}
+	sequential := mode <= 1
+	churn := mode == 1
 	nThreads := 2 + c.Rng.Intn(4)
+	closeOneIn := 4
+	outOf4 := []int{0, 1, 3, 4}[c.Rng.Intn(4)] // share of outbound attempts in a churn schedule
+	if churn {
+		nThreads = 5 + c.Rng.Intn(4)
+		closeOneIn = 2
+	}
 	spawned := 0
 	tail := 0
 	return func(r runner, i int) (Event, bool) {
@@ -996,13 +1034,13 @@ func genNext(c *hx.Ctx, level string, sequential bool) nextFn {
 			if len(pend) > 0 {
 				return Event{Kind: stepKind, Idx: pend[0]}, true
 			}
-			if nlive > 0 && c.Rng.Intn(4) == 0 {
+			if nlive > 0 && c.Rng.Intn(closeOneIn) == 0 {
 				return Event{Kind: "close", Idx: c.Rng.Intn(nlive + 1)}, true
 			}
 			if spawned < nThreads {
 				spawned++
 				tail = 0
-				return genSpawn(c), true
+				return genSpawn(c, churn, outOf4), true
 			}
 			return Event{}, false
 		}
@@ -1010,7 +1048,7 @@ func genNext(c *hx.Ctx, level string, sequential bool) nextFn {
 		switch {
 		case spawned == 0 || (spawned < nThreads && (x < 2 || len(pend) == 0)):
 			spawned++
-			return genSpawn(c), true
+			return genSpawn(c, false, 0), true
 		case x == 11 && nlive > 0:
 			return Event{Kind: "close", Idx: c.Rng.Intn(nlive + 1)}, true
 		case x == 10 && level == "B":
@@ -1028,34 +1066,53 @@ func genNext(c *hx.Ctx, level string, sequential bool) nextFn {
 func Run(c *hx.Ctx) {
 	c.CoqModule("Corr.C36")
 	prog, errs := ExtractProgram(c.Repo)
+	levelB := true
 	if len(errs) > 0 || prog == nil {
+		// the tie is broken (Gen/ConnCtrlProg.v has no program, the proofs do not compile); the
+		// real AcceptConnect/Connect can still be driven, so keep looking for a failing input
 		c.Note("translator: " + strings.Join(errs, "; "))
 		c.Fail("translator:connect_controller", "the section sequence of AcceptConnect/Connect has the expected shape", nil, strings.Join(errs, "; "), nil)
-		return
+		levelB = false
+		if prog == nil {
+			prog = &Prog{}
+		}
 	}
 	c.Note("locked sections: " + strings.Join(prog.Sections, ", "))
 	var in Sched
 	if c.ReplayInput(&in) {
-		runSched(c, prog, in, nil)
+		if in.Level == "A" || levelB {
+			runSched(c, prog, in, nil)
+		}
 		return
 	}
 	for _, raw := range c.CorpusInputs() {
 		var s Sched
-		if json.Unmarshal(raw, &s) == nil && len(s.Events) > 0 {
+		if json.Unmarshal(raw, &s) == nil && len(s.Events) > 0 && (s.Level == "A" || levelB) {
 			runSched(c, prog, s, nil)
 		}
 	}
 	// 1. the witnesses of the Coq refutation, replayed on the implementation on every run
 	for _, s := range witnesses() {
-		runSched(c, prog, s, nil)
+		if s.Level == "A" || levelB {
+			runSched(c, prog, s, nil)
+		}
 	}
 	// 2. generated schedules
-	nA := c.N(150, 2000)
-	nB := c.N(450, 8000)
-	for i := 0; i < nA; i++ {
-		runSched(c, prog, Sched{Level: "A", Cfg: genCfg(c)}, genNext(c, "A", i%3 == 0))
-	}
-	for i := 0; i < nB; i++ {
-		runSched(c, prog, Sched{Level: "B", Cfg: genCfg(c)}, genNext(c, "B", i%3 == 0))
+	nA := c.N(120, 2000)
+	nB := c.N(330, 8000)
+	// modes: 0 sequential, 1 sequential churn (few hosts, many closes), 2.. concurrent
+	for _, lv := range []struct {
+		level string
+		n     int
+	}{{"A", nA}, {"B", nB}} {
+		for i := 0; i < lv.n && (lv.level == "A" || levelB); i++ {
+			mode := i % 4
+			cfg := genCfg(c)
+			if mode == 1 {
+				cfg = genCfgChurn(c)
+			}
+			c.Count(fmt.Sprintf("mode:%s:%d", lv.level, mode))
+			runSched(c, prog, Sched{Level: lv.level, Cfg: cfg}, genNext(c, lv.level, mode))
+		}
 	}
 }
